@@ -291,6 +291,9 @@ def setter_sequences(ctx, emg3d, rng):
 def attrs(F):
     return (np.asarray(F.freq_required).tolist(),
             np.asarray(F.freq_coarse).tolist(),
+            np.asarray(F.freq_compute).tolist(),
+            np.asarray(F.freq_extrapolate).tolist(),
+            np.asarray(F.freq_interpolate).tolist(),
             np.asarray(F.ifreq_compute).tolist(),
             np.asarray(F.ifreq_extrapolate).tolist(),
             np.asarray(F.ifreq_interpolate).tolist(),
@@ -331,15 +334,27 @@ def setters_vs_fresh(ctx, emg3d, rng):
             except Exception:       # noqa
                 o1 = o1c = None
             # move F to G's parameters through the documented setters
-            F.signal = G.signal
-            F.fourier_arguments(G.ft, dict(G.ftarg))
-            F.time = G.time
-            F.fmin = G.fmin
-            F.fmax = G.fmax
-            F.every_x_freq = G.every_x_freq
-            F.input_freq = G.input_freq
-            if G.every_x_freq is not None:
+            # (in any order; the derived attributes are read in between)
+            def set_coarse():
                 F.every_x_freq = G.every_x_freq
+                F.input_freq = G.input_freq
+                if G.every_x_freq is not None:
+                    F.every_x_freq = G.every_x_freq
+            steps = [lambda: setattr(F, 'signal', G.signal),
+                     lambda: F.fourier_arguments(G.ft, dict(G.ftarg)),
+                     lambda: setattr(F, 'time', G.time),
+                     lambda: setattr(F, 'fmin', G.fmin),
+                     lambda: setattr(F, 'fmax', G.fmax),
+                     set_coarse]
+            order = [list(range(len(steps))), [0, 1, 2, 5, 4, 3],
+                     [int(q) for q in rng.permutation(len(steps))]][t % 3]
+            for q in order:
+                steps[q]()
+                try:
+                    _ = (F.freq_compute, F.freq_extrapolate,
+                         F.freq_interpolate)
+                except Exception:       # noqa  (inconsistent intermediate)
+                    pass
         a, b = attrs(F), attrs(G)
         if a != b:
             k = [i for i, (x, y) in enumerate(zip(a, b)) if x != y]
